@@ -8,6 +8,7 @@
 mod util;
 mod store;
 mod bmt;
+mod smt;
 
 use std::process::exit;
 
@@ -25,6 +26,8 @@ fn main() {
     let r = match (mode, domain) {
         ("record", "bmt") => bmt::record(&opts),
         ("replay", "bmt") => bmt::replay(&opts),
+        ("record", "smt") => smt::record(&opts),
+        ("replay", "smt") => smt::replay(&opts),
         _ => {
             eprintln!("unknown mode/domain {mode}/{domain}");
             exit(64);
